@@ -225,7 +225,7 @@ func (c *CPU) formatInstructionModeTo(xb *xbuf.B, mode byte, w0 byte, w1 byte, w
 		xb.C('$').X02(w1).S(", Sn").Sb(spaces[9:13])
 	case m_Stack_Relative_Indirect_Y: // ($32, Sn), Y - p. 325 or 5.21 (STACK,Sn),Y
 		//o = fmt.Appendf(o, "($%02x, Sn), Y", w1)
-		xb.C('$').C('(').X02(w1).S(", Sn), Y").Sb(spaces[12:13])
+		xb.C('(').C('$').X02(w1).S(", Sn), Y").Sb(spaces[12:13])
 	default:
 		//o = fmt.Appendf(o, "! unknown !")
 		xb.S("! unknown !").Sb(spaces[11:13])
